@@ -21,7 +21,8 @@ class C17(ThreadsProperty):
             "with T < end_time is evaluated at exactly T (late when lagging) unless a stop was requested; no evaluation at an unrequested time; without "
             "injected lag a due timer is evaluated within 400 us; after request_stop returns at most one more cycle begins and run() returns within 400 "
             "scheduler steps; without a stop run() returns only once the wall clock has reached end_time; no forced time-out of the engine's wait after a "
-            "stop request returned (lost wake-up); no deadlock. non-trivial = >= 30 scheduler steps; distinct = distinct interleavings")
+            "stop request returned (lost wake-up); no deadlock. non-trivial = >= 30 scheduler steps; distinct = distinct interleavings"
+            " Round 3: a watch node (scripted tagged timers next to a push-fed input; tag replacement and cancellation modelled); the instrumented pass runs site sweeps (one run per call site entered while another thread was runnable).")
     assumptions = ["backward steps of the wall clock are not injected (the statement has no meaning under them)",
                    "tag replacement and cancellation are excluded here (C18 owns them); the drain cut-off (>= 1024 consecutive MIN_TD cycles past end_time) is not provoked"]
 
